@@ -61,8 +61,8 @@ class _TRSTractList:
             into.extend(iterable)
             return into
         for elem in iterable:
-            if isinstance(elem, cls._ok_individuals):
-                into.append(cls._verify_individual(elem))
+            # Raises a TypeError if the element is not legal.
+            into.append(cls._verify_individual(elem))
         return into
 
     @classmethod
